@@ -386,14 +386,16 @@ def gen_bitmap_pipeline_history(seed, idx):
     # renderings with more than 256 colours at 96-128 px: pngquant --quality 100-100 gives up on these (exit 99)
     grad = ["corpus:radial_gradient_rect.svg", "corpus:one-o-clock.svg", "corpus:two-o-clock.svg", "corpus:radial_gradient_rect.svg"]
     names = ["src/emoji_u%04x.svg" % c for c in r.sample(range(0x41, 0x5B), r.randint(1, 3))]
-    state = {"flags": "default", "zopfli": True, "pngquant": True, "res": r.choice([128, 128, 128, 96]),  # small renderings have < 256 colours: pngquant never gives up on them
+    state = {"out": "Font.ttf", "flags": "default", "zopfli": True, "pngquant": True, "res": r.choice([128, 128, 128, 96]),  # small renderings have < 256 colours: pngquant never gives up on them
              "content": {n: r.choice(flat + grad) for n in names}}
     FLAGS = {"default": None, "giveup": "--speed 3 --quality 100-100", "lossy": "--speed 10 --quality 40-60"}
     ops = [{"op": "write", "path": n, "content": c} for n, c in sorted(state["content"].items())]
     kinds = ["bitmap-pipeline"]
+    two_fonts = gen.rng(seed, "c09bp", idx, "two-fonts").random() < 0.4
+    saved = {}
 
     def argv():
-        o = {"color_format": fmt, "output_file": "Font.ttf", "bitmap_resolution": state["res"]}
+        o = {"color_format": fmt, "output_file": state["out"], "bitmap_resolution": state["res"]}
         if FLAGS[state["flags"]]:
             o["pngquant_flags"] = FLAGS[state["flags"]]
         if not state["zopfli"]:
@@ -404,6 +406,17 @@ def gen_bitmap_pipeline_history(seed, idx):
 
     def step():
         k = r.choice(["flags", "flags", "flags", "zopfli", "zopfli", "zopfli", "content", "content", "pngquant", "res"])
+        if two_fonts and r.random() < 0.5:
+            # the other font of the two that take turns in this build directory (same sources, other options): whatever
+            # bookkeeping is kept per font, the intermediates are shared
+            saved[state["out"]] = {f: state[f] for f in ("flags", "zopfli", "pngquant", "res")}
+            state["out"] = "Other.ttf" if state["out"] == "Font.ttf" else "Font.ttf"
+            kinds.append("out")
+            if state["out"] in saved:  # each font keeps its own options (two configuration files built in turn)
+                state.update(saved[state["out"]])
+                return
+            if r.random() < 0.6:
+                k = "res"  # the second font is, more often than not, the same artwork at another size
         if k == "flags":
             state["flags"] = r.choice([f for f in FLAGS if f != state["flags"]])
         elif k == "zopfli":
@@ -437,7 +450,7 @@ def gen_bitmap_pipeline_history(seed, idx):
     cid = "c09-%d-bp%d" % (seed, idx)
     job = {"id": cid + ".j0", "root_id": "c09/%d/bp%d" % (seed, idx), "hashseed": H(seed, "c09bp", idx, "hs") % 4294967296,
            "clock_seed": H(seed, "c09bp", idx, "clock") % (1 << 31), "readdir_seed": H(seed, "c09bp", idx, "rd") % (1 << 31), "ops": ops}
-    return {"id": cid, "jobs": [job], "meta": {"font": "Font.ttf", "kinds": kinds, "fmt": fmt, "backdate": False, "sweep": False}}
+    return {"id": cid, "jobs": [job], "meta": {"font": state["out"], "kinds": kinds, "fmt": fmt, "backdate": False, "sweep": False}}
 
 
 def gen_vf_history(seed, idx):
